@@ -812,6 +812,25 @@ def case_database(p):
         df = _diff(wantn, got)
         if df:
             out.append(("database:numbers-or-broadcast-key-differ-after-restart", {**p, "diff": df}))
+        # ---- a characteristic that cannot be reached for a while (a bridged device out of range: status -70402) keeps its last known value in
+        # the model; a cache write that happens meanwhile (for whatever reason) does not lose it for the restart
+        if not out and p2.accessories is not None:
+            try:
+                readable = [(a.aid, c.iid, c.value) for a in p1.accessories for s_ in a.services for c in s_.characteristics if "pr" in c.perms and c.format in ("bool", "int", "uint8", "uint16", "uint32", "uint64", "float", "string") and c.value is not None][:5]
+                if readable:
+                    p1.accessories.process_changes({(aid, iid): {"status": -70402} for aid, iid, _ in readable[:3]})
+                    p1._callback_and_save_config_changed(cn)
+                    c4 = _controller(CharacteristicCacheFile(cpath2))
+                    c4.load_data(fname)
+                    p4 = c4.aliases[alias]
+                    for aid, iid, v in readable:
+                        got = p4.accessories.aid(aid).characteristics.iid(iid).value
+                        if not _same(got, v):
+                            out.append(("database:last-known-value-of-an-unreachable-characteristic-lost-by-a-restart", {**p, "aid": aid, "iid": iid, "before": repr(v)[:60], "after": repr(got)[:60]}))
+                            break
+                    p1.accessories.process_changes({(aid, iid): {"value": v} for aid, iid, v in readable[:3]})
+            except Exception as e:  # noqa: BLE001
+                out.append((f"database:cache-write-with-unreachable-characteristics-raises:{type(e).__name__}", {**p, "err": str(e)[:200]}))
         # ---- BLE: the state number follows the accessory's advertisements while running (growing, rolling over 65535 -> 1, restarting low after a
         # reset); whatever was advertised last is what a restarted controller reads back
         if p["transport"] == "ble" and not out:
